@@ -25,7 +25,7 @@ func check06() *simcore.Check {
 			Stub: []string{"disk: simdisk.SimKV", "node-store seam: gate in front of triedb NodeReader.Node", "clock (synctest bubble)"},
 		},
 		Perturbed: []string{"UpdateBatch goroutines between node reads", "parallel hasher/committer"},
-		Runs:      map[string]int{"quick": 16000, "thorough": 800000},
+		Runs:      map[string]int{"quick": 16000, "thorough": 1500000},
 		Gen:       Gen06, Decode: Decode06, Run: Run06, Shrink: Shrink06,
 		ProbeNames: []string{"batch-goroutines-interleaved", "batch-above-threshold", "batch-below-threshold", "batch-16-nibble-fanout",
 			"batch-with-deletions", "batch-collapses-root", "stacktrie-compared", "full-iteration", "flushed-to-disk", "cold-restart", "root-revisited"},
@@ -46,7 +46,7 @@ func check07() *simcore.Check {
 			Stub: []string{"disk: simdisk.SimKV"},
 		},
 		Perturbed: []string{"parallel committer goroutines"},
-		Runs:      map[string]int{"quick": 12000, "thorough": 300000},
+		Runs:      map[string]int{"quick": 12000, "thorough": 1000000},
 		Gen:       Gen07f, Decode: Decode07, Run: Run07, Shrink: Shrink07,
 		ProbeNames: []string{"nodeset-deletion", "parallel-committer", "trie-emptied", "flushed-to-disk", "cold-restart", "path-disk-compared", "hash-disk-compared", "stacktrie-nodes-compared", "root-revisited"},
 	}
@@ -67,7 +67,7 @@ func check11() *simcore.Check {
 			Stub: []string{"disk: simdisk.SimKV under a gate wrapper (ethdb.Database)", "clock: synctest bubble (30 s progress ticker)", "caller: cancel channel"},
 		},
 		Perturbed: []string{"interleavings of partition goroutines between two database calls (they share only atomic counters)"},
-		Runs:      map[string]int{"quick": 6000, "thorough": 150000},
+		Runs:      map[string]int{"quick": 6000, "thorough": 400000},
 		Gen:       Gen11, Decode: Decode11, Run: Run11, Shrink: Shrink11,
 		ProbeNames: []string{"empty-state", "single-account-fold", "single-partition-fold", "all-16-partitions", "partitions-interleaved", "mid-run-batch-flush",
 			"stale-root-rewritten", "dangling-storage-deleted", "root-mismatch-reported", "rerun-after-abort", "progress-ticker-period-elapsed"},
@@ -89,7 +89,7 @@ func check12() *simcore.Check {
 			Stub: []string{"disk: simdisk.SimKV behind a gated reader", "network/peer: requester loop with reorder, duplication, batching, undecodable answers, restart", "clock: synctest bubble"},
 		},
 		Perturbed: []string{},
-		Runs:      map[string]int{"quick": 8000, "thorough": 300000},
+		Runs:      map[string]int{"quick": 8000, "thorough": 1000000},
 		Gen:       Gen12, Decode: Decode12, Run: Run12, Shrink: Shrink12,
 		ProbeNames: []string{"concurrent-presence-checks", "pre-complete-subtrie", "pre-variant-state", "pre-all-code", "inconsistent-node-deleted", "completed-after-restart", "leaf-callback", "storage-tries-synced", "code-synced"},
 	}
